@@ -49,3 +49,18 @@ Proof.
   - vm_compute. reflexivity.
   - vm_compute. reflexivity.
 Qed.
+
+Lemma ex_prop_wf s r : 0 <= s -> prop_data_wf (ex_prop s r).
+Proof. intros Hs. eexists. split; [reflexivity|]. cbn. split; auto. Qed.
+
+From DV Require Import Model.Interchange.
+Lemma C11_example_proof :
+  Forall op_wf [OAttest ex_cl (by_key 1) (ex_att 0 1 1) no_ofault; OPropose ex_cl (by_key 1) (ex_prop 7 1) no_ofault] /\
+  export_view (fst (run (ex_cfg true) empty_store
+     [OAttest ex_cl (by_key 1) (ex_att 0 1 1) no_ofault; OPropose ex_cl (by_key 1) (ex_prop 7 1) no_ofault])) 1
+  = {| sp_slot := 7; sp_src := 0; sp_tgt := 1 |}.
+Proof.
+  split; [|vm_compute; reflexivity].
+  constructor; [split; [reflexivity|apply ex_att_wf; lia]|].
+  constructor; [split; [reflexivity|apply ex_prop_wf; lia]|constructor].
+Qed.
